@@ -299,8 +299,8 @@ func runC05(c *Ctx) {
 		}
 	}
 	allFracs, forceOpts, forceGran = false, nil, "*"
-	// source_path / trim_path: the report cleans file names on EVERY graph build; the kept set of the
-	// first build must still match in the rebuilds (deterministic part + random settings)
+	// source_path / trim_path: the report cleans file names when it builds the full graph; the kept set
+	// of that build must still match in the rebuilds (deterministic part + random settings)
 	for ci, cfg := range c05PathConfigs {
 		forceOpts = func(o *c04Opts) { o.SourcePath, o.TrimPath = cfg[0], cfg[1]; o.NoInlines = false }
 		for gi, gr := range []string{"lines", "files", "filefunctions", "addresses"} {
@@ -310,14 +310,15 @@ func runC05(c *Ctx) {
 		}
 	}
 	allFracs = false
-	// the known finding F40 (clean-up not idempotent when the checkout's base name occurs twice)
+	// F42 (repaired in /repo 84fd0b7; regression case): the clean-up is not idempotent when the checkout's
+	// base name occurs twice in a path, so it must run once per report and not again on a rebuild
 	forceOpts = func(o *c04Opts) { o.SourcePath, o.TrimPath = "/home/me/proj", ""; o.NoInlines, o.Mean, o.DropNeg = false, false, false }
 	forceGran = "lines"
 	{
 		p := c05PathProfile(true).Copy()
 		o := c04Opts{Format: "text", Gran: "lines", SourcePath: "/home/me/proj", NodeFrac: 0.05}
-		emit("finding-F40", p, o, "tgraph")
-		emit("finding-F40", p, o, "top")
+		emit("finding-F42", p, o, "tgraph")
+		emit("finding-F42", p, o, "top")
 	}
 	forceOpts, forceGran = nil, "*"
 	// an interactive top/text whose count was not given shows 10 entries (13-entry profile; deterministic)
